@@ -17,6 +17,12 @@ Theorem C17_dtype_string_bijective :
 Proof. exact dtype_string_bijective. Qed.
 Print Assumptions C17_dtype_string_bijective.
 
+(* the string recorded for torch.X is "torch.X", the name PyTorch itself prints *)
+Theorem C17_dtype_strings_canonical : forall d s,
+  Dtype_get d dtype_to_string_table = Some s -> s = Dtype_torch_prefix ++ d.
+Proof. exact dtype_strings_canonical. Qed.
+Print Assumptions C17_dtype_strings_canonical.
+
 (* every supported dtype has a recorded element size, and every recorded size is PyTorch's (reference table
    Dtype_ref_sizes, itself compared with the running torch by the harness) *)
 Theorem C17_esize_matches_reference :
@@ -162,14 +168,11 @@ Print Assumptions C17_via_storage_agrees.
 
 (* ======================================================================== stager / consumer *)
 
-(* which branch the stager takes is decided by the serializer string as the source compares it now; the copy
-   guard clones exactly the non-contiguous / async buffer-protocol tensors and the torch_save views *)
+(* which branch the stager takes is decided by the serializer string as the source compares it now: the value
+   prepare_write records for buffer-protocol dtypes leads to tensor_as_memoryview, the other one to torch.save *)
 Theorem C17_stager_dispatch :
-  stage_kind serializer_BUFFER_PROTOCOL_value = 2 /\ stage_kind serializer_TORCH_SAVE_value = 1 /\
-  forall a c n,
-    should_copy_cpu_tensor serializer_BUFFER_PROTOCOL_value a c n = (a || negb c) /\
-    should_copy_cpu_tensor serializer_TORCH_SAVE_value a c n = n.
-Proof. destruct stage_dispatch as [H2 H1]. split; [exact H2|]. split; [exact H1 | exact copy_guard]. Qed.
+  stage_kind serializer_BUFFER_PROTOCOL_value = 2 /\ stage_kind serializer_TORCH_SAVE_value = 1.
+Proof. exact stage_dispatch. Qed.
 Print Assumptions C17_stager_dispatch.
 
 (* PARTIAL: complex and quantized dtypes go through torch.save / torch.load, which are NOT modelled: for ANY pair
@@ -243,7 +246,5 @@ Proof. vm_compute. repeat split; reflexivity. Qed.
 Example C17_example_tables :
   Dtype_get Dtype_bfloat16 dtype_to_element_size_table = Some 2 /\
   C17_carrier Dtype_bfloat16 = Some 1 /\
-  Dtype_mem Dtype_bfloat16 buffer_protocol_supported_dtypes = true /\
-  should_copy_cpu_tensor serializer_BUFFER_PROTOCOL_value true true false = true /\
-  should_copy_cpu_tensor serializer_BUFFER_PROTOCOL_value false true true = false.
+  Dtype_mem Dtype_bfloat16 buffer_protocol_supported_dtypes = true.
 Proof. vm_compute. repeat split; reflexivity. Qed.
